@@ -31,10 +31,7 @@ func (e *Env) cloneStore(id string, tuples []rm.Tuple) error {
 	if err := e.Mem.WriteAuthorizationModel(ctx, id, e.Model); err != nil {
 		return err
 	}
-	old := e.StoreID
-	e.StoreID = id
-	defer func() { e.StoreID = old }()
-	return e.WriteTuplesRaw(tuples)
+	return e.WriteTuplesRawTo(id, tuples)
 }
 
 // dumpStore renders tuples and changelog of a store canonically (read through the raw backend).
@@ -102,7 +99,7 @@ func renderTree(n *openfgav1.UsersetTree_Node) string {
 // SrvExpand returns the canonical rendering of the expansion tree.
 func (e *Env) SrvExpand(ctx context.Context, s *server.Server, rq gen.Request) (string, error) {
 	resp, err := s.Expand(ctx, &openfgav1.ExpandRequest{
-		StoreId:              e.StoreID,
+		StoreId:              e.storeOf(rq),
 		AuthorizationModelId: e.ModelID,
 		TupleKey:             &openfgav1.ExpandRequestTupleKey{Object: rq.Obj, Relation: rq.Rel},
 		ContextualTuples:     CtxTupleKeys(rq.CtxTuples),
@@ -307,27 +304,32 @@ func c32Exec(t *testing.T, sc *gen.Scenario, trace bool) *harness.Outcome {
 				nat, errN := e.SrvListObjects(ctx, s, rq, false)
 				cancel()
 				e.Run.Log("resp", fmt.Sprintf("r%d az=%d/%v native=%d/%v", i, len(got), errA != nil, len(nat), errN != nil))
-				if errA == nil && errN == nil && len(st.Unevaluable(rq.Ctx)) == 0 && strings.Join(sorted(got), ",") != strings.Join(sorted(nat), ",") {
+				if errA == nil && errN == nil && !faulty && len(st.Unevaluable(rq.Ctx)) == 0 && strings.Join(sorted(got), ",") != strings.Join(sorted(nat), ",") {
 					e.Violate("resource_search_differs", "", "resourcesearch(%s %s %s)=%v but native listobjects=%v", rq.User, rq.Rel, rq.Type, sorted(got), sorted(nat))
 					return
 				}
 				e.JudgeListObjects("authzen", rq, st, got, errA, faulty, 0, false)
 			case "listusers":
 				ctx, cancel := reqCtx(i, ".az", 10*time.Second)
+				tAz := time.Now()
 				az, errA := s.SubjectSearch(ctx, &authzenv1.SubjectSearchRequest{StoreId: e.StoreID, Subject: &authzenv1.SubjectFilter{Type: rq.Filter}, Resource: res(rq.Obj), Action: &authzenv1.Action{Name: rq.Rel}, Context: rm.MustStruct(rq.Ctx)})
 				cancel()
 				var got []string
 				for _, r := range az.GetResults() {
 					got = append(got, r.GetType()+":"+r.GetId())
 				}
+				e.Truncated = time.Since(tAz) >= 3*time.Second
+				azTruncated := e.Truncated
 				ctx, cancel = reqCtx(i, ".native", 10*time.Second)
 				nat, errN := e.SrvListUsers(ctx, s, rq)
 				cancel()
 				e.Run.Log("resp", fmt.Sprintf("r%d az=%d/%v native=%d/%v", i, len(got), errA != nil, len(nat), errN != nil))
-				if errA == nil && errN == nil && len(st.Unevaluable(rq.Ctx)) == 0 && strings.Join(sorted(got), ",") != strings.Join(sorted(nat), ",") {
+				azTrunc := azTruncated
+				if errA == nil && errN == nil && !faulty && !azTrunc && !e.Truncated && len(st.Unevaluable(rq.Ctx)) == 0 && strings.Join(sorted(got), ",") != strings.Join(sorted(nat), ",") {
 					e.Violate("subject_search_differs", "", "subjectsearch(%s %s filter=%s)=%v but native listusers=%v", rq.Obj, rq.Rel, rq.Filter, sorted(got), sorted(nat))
 					return
 				}
+				e.Truncated = azTruncated
 				e.JudgeListUsers("authzen", rq, st, got, errA, faulty)
 			}
 			if e.Out.Violation != nil {
